@@ -160,7 +160,7 @@ def prog_C16(ctx):
     def cov(ctx, st):
         ctx.cov.update(evaluations=st['Ops'], distinct_nontrivial=st['DistinctSizes'] + st['Histories'], exhaustive=False,
                        histories=st['Histories'], sends=st['Sends'], reads=st['Reads'], writers_max=st['MaxWriters'])
-    generic(ctx, ['Dc4bcVerif.Props.C16', 'Dc4bcVerif.Props.SrcFacts'], 'boarddiff', 'board', ['C16'],
+    generic(ctx, ['Dc4bcVerif.Props.C16', 'Dc4bcVerif.Props.C16Src', 'Dc4bcVerif.Props.SrcFacts'], 'boarddiff', 'board', ['C16'],
             ['translator: the two line limits (counting scanner and reading scanner) are read from storage/file_storage/fileStorage.go on this run',
              'correspondence boarddiff: file_storage.NewFileStorage/Send/GetMessages/IgnoreMessages with several writers on separate handles (goroutines; OS processes in the thorough tier) vs the Lean board model fed the observed linearisation',
              'trusted: flock(2) mutual exclusion between open file descriptions, O_APPEND single-write appends (no torn lines), bufio.Scanner token-limit semantics (modelled: a line is readable iff len+1 <= limit)'],
